@@ -1,6 +1,7 @@
 mod checks;
 mod conv;
 mod harness;
+mod laws;
 mod univ;
 
 use harness::*;
@@ -21,6 +22,9 @@ pub struct Plan {
 fn plan(prop: &str, tier: Tier) -> Option<Plan> {
     let (spaces, (rule, bounds, assumptions)) = match prop {
         "C01" => (checks::c01::spaces(tier), checks::c01::meta(tier)),
+        "C04" => (checks::c04::spaces(tier), checks::c04::meta(tier)),
+        "C12" => (checks::c12::spaces(tier), checks::c12::meta(tier)),
+        "C18" => (checks::c18::spaces(tier), checks::c18::meta(tier)),
         _ => return None,
     };
     Some(Plan { spaces, rule, bounds, assumptions })
